@@ -39,6 +39,15 @@ func runParserCases(pw *parserWorld, reqs []*parsersim.Request, timeout time.Dur
 			out[i] = pOutcome{Status: "crash", Detail: headTail(detail, 3000, 3000)}
 		default:
 			out[i] = pOutcome{Status: "ok", Resp: resp}
+			for _, v := range resp.Violations {
+				if v.Class == "deadlock" && w.cmd != nil {
+					// clients that blocked each other stay parked in that process for
+					// ever, together with whatever they hold: the next case gets a fresh one
+					w.in.Close()
+					w.kill()
+					break
+				}
+			}
 		}
 	})
 	return out
